@@ -67,6 +67,15 @@ def gen_cases(rng, tier):
                 steps = "A" + c + ";" + ";".join(["U"] * rng.randrange(1, 6))
                 cases.append(["x%d" % n, "c18", rng.choice(methods), rng.choice(URIS), rng.choice(bodies).hex(),
                               "%s=%s:%s" % (hx(realm), hx(user), hx(pw)), steps, rng.choice(["", "", "enforce"])]); n += 1
+    # long reuse: the nonce count passes 9 (hex letters) and, in the thorough tier, 255 (a third digit)
+    for alg in ALGS:
+        for qop in ["auth", "auth-int"]:
+            user, pw = rng.choice(USERS)
+            realm = rng.choice(STR)
+            c = ",".join(["W", alg, qop, "0", hx(realm), hx(rng.choice(NONCES)), "-"])
+            uses = rng.randrange(11, 18) if tier == "quick" else rng.choice([17, 33, 260])
+            cases.append(["r%d" % n, "c18", rng.choice(methods), rng.choice(URIS), b"".hex(),
+                          "%s=%s:%s" % (hx(realm), hx(user), hx(pw)), "A" + c + ";" + ";".join(["U"] * uses), ""]); n += 1
     # sequences
     for i in range(120 if tier == "quick" else 4000):
         realms = rng.sample(STR, rng.randrange(1, 4))
@@ -78,6 +87,11 @@ def gen_cases(rng, tier):
         if rng.random() < 0.4:
             u, p = rng.choice(USERS)
             store.append("*=%s:%s" % (hx(u), hx(p)))
+        # a realm whose credentials are stored a second time (a corrected password): the later ones are the stored ones
+        if store and rng.random() < 0.35:
+            r = rng.choice(realms)
+            u, p = rng.choice(USERS)
+            store.append("%s=%s:%s" % (hx(r), hx(u), hx(p + "2")))
         steps = []
         used_nonce = {}
         for _ in range(rng.randrange(1, 5)):
@@ -88,6 +102,10 @@ def gen_cases(rng, tier):
                     nonce = used_nonce[r] if (r in used_nonce and rng.random() < 0.4) else rng.choice(NONCES) + str(rng.randrange(100))
                     chs.append(chal(rng, alg=alg, realm=r, nonce=nonce))
                     used_nonce[r] = nonce
+            if rng.random() < 0.2:
+                # the application stores other credentials before the next challenge arrives
+                u, p = rng.choice(USERS)
+                steps.append("C%s=%s:%s" % (rng.choice([hx(r) for r in realms] + ["*"]), hx(u), hx(p + "3")))
             steps.append("A" + "|".join(chs))
             steps += ["U"] * rng.randrange(0, 4)
         cases.append(["s%d" % i, "c18", rng.choice(methods), rng.choice(URIS), rng.choice(bodies).hex(), ";".join(store), ";".join(steps),
@@ -162,7 +180,9 @@ def _impl_steps(impl):
 def normalize_impl(case, s):
     out = []
     for st in _impl_steps(s):
-        if st.startswith("A["):
+        if st.startswith("C["):
+            out.append("C[]")
+        elif st.startswith("A["):
             out.append("A[ok]" if st == "A[ok]" else "A[fail]")
         elif st.startswith("U["):
             hs = [h for h in st[2:-1].split(",") if h]
@@ -193,6 +213,10 @@ def accepts(case, impl_norm, model):
     if len(msteps) != len(isteps):
         return False
     for idx, (m, i) in enumerate(zip(msteps, isteps)):
+        if m.startswith("C["):
+            if i != "C[]":
+                return False
+            continue
         if m.startswith("A["):
             if (m == "A[ok]") != (i == "A[ok]"):
                 return False
@@ -260,14 +284,24 @@ def oracle(case, impl):
     isteps = _impl_steps(impl)
     if len(isteps) != len(steps):
         return ["malformed observation"]
+    stored_at = {}   # (realm, nonce) -> the credentials stored for the realm when a challenge with that nonce arrived
     kinds = {}       # realm -> header kind of the challenge that should be answered
     nonce_kinds = {} # (realm, nonce) -> kinds of the challenges that carried this nonce, in order
     last_nc = {}
     for st, o in zip(steps, isteps):
+        if st.startswith("C"):
+            realm, up = st[1:].split("=", 1)
+            u, p = up.split(":")
+            if realm == "*":
+                default = (bytes.fromhex(u), bytes.fromhex(p))
+            else:
+                store[bytes.fromhex(realm).decode("utf-8")] = (bytes.fromhex(u), bytes.fromhex(p))
+            continue
         if st.startswith("A"):
             for ch in st[1:].split("|"):
                 f = ch.split(",")
                 realm = bytes.fromhex(f[4]).decode("utf-8")
+                stored_at.setdefault((realm, bytes.fromhex(f[5]).decode("utf-8", "replace")), []).append(store.get(realm, default))
                 kinds.setdefault(realm, set()).add(f[0])
                 nonce_kinds.setdefault((realm, bytes.fromhex(f[5]).decode("utf-8", "replace")), []).append(f[0])
             last_nc_reset = True
@@ -277,8 +311,14 @@ def oracle(case, impl):
             text = bytes.fromhex(hv).decode("utf-8")
             d = parse_header(text)
             realm = d.get("realm")
-            creds = store.get(realm, default)
-            if creds is None:
+            cands = [c for c in stored_at.get((realm, d.get("nonce")), [store.get(realm, default)]) if c is not None]
+            # the credentials stored for the realm when the answered challenge arrived (a challenge whose nonce was seen before is
+            # not answered again, so the earlier ones stay possible)
+            uniq = []
+            for c in cands:
+                if c not in uniq:
+                    uniq.append(c)
+            if not uniq:
                 return ["a header was produced for realm %r although no credentials are stored for it" % realm]
             if realm in kinds and ("P" if kind == "P" else "W") not in kinds[realm]:
                 return ["%s header for realm %r which was only challenged with the other header kind" % ("Proxy-Authorization" if kind == "P" else "Authorization", realm)]
@@ -286,7 +326,6 @@ def oracle(case, impl):
             if nk and ("P" if kind == "P" else "W") not in nk:
                 return ["the answer to the %s challenge (realm %r, nonce %r) was sent as %s: a Proxy-Authenticate challenge yields Proxy-Authorization and a WWW-Authenticate one Authorization" % (
                     "Proxy-Authenticate" if nk[-1] == "P" else "WWW-Authenticate", realm, d.get("nonce"), "Proxy-Authorization" if kind == "P" else "Authorization")]
-            user, pw = creds
             alg = d.get("algorithm", "MD5")
             sess = alg.lower().endswith("-sess")
             base = {"md5": "md5", "sha-256": "sha256", "sha-512-256": "sha512_256"}.get(alg.lower().replace("-sess", ""))
@@ -294,22 +333,28 @@ def oracle(case, impl):
                 return ["unknown algorithm in the produced header: " + alg]
             nonce = d["nonce"].encode(); cnonce = d.get("cnonce", "").encode(); uri = d["uri"].encode()
             qop = d.get("qop")
-            a1 = user + b":" + realm.encode() + b":" + pw
-            if sess:
-                a1 = H(base, a1) + b":" + nonce + b":" + cnonce
-            a2 = method + b":" + uri
-            if qop == "auth-int":
-                a2 += b":" + H(base, body)
-            if qop:
-                want = H(base, H(base, a1) + b":" + nonce + b":" + d["nc"].encode() + b":" + cnonce + b":" + qop.encode() + b":" + H(base, a2))
-            else:
-                want = H(base, H(base, a1) + b":" + nonce + b":" + H(base, a2))
-            if d["response"].encode() != want:
-                return ["the %s header for realm %r (algorithm %s, qop %s, nc %s) does not verify under RFC 7616" % (
-                    "Proxy-Authorization" if kind == "P" else "Authorization", realm, alg, qop, d.get("nc"))]
-            if d.get("userhash") == "true":
-                if d.get("username", "").encode() != H(base, user + b":" + realm.encode()):
-                    return ["userhash=true but the username is not H(user:realm)"]
+            errs = []
+            for user, pw in uniq:
+                a1 = user + b":" + realm.encode() + b":" + pw
+                if sess:
+                    a1 = H(base, a1) + b":" + nonce + b":" + cnonce
+                a2 = method + b":" + uri
+                if qop == "auth-int":
+                    a2 += b":" + H(base, body)
+                if qop:
+                    want = H(base, H(base, a1) + b":" + nonce + b":" + d["nc"].encode() + b":" + cnonce + b":" + qop.encode() + b":" + H(base, a2))
+                else:
+                    want = H(base, H(base, a1) + b":" + nonce + b":" + H(base, a2))
+                if d["response"].encode() != want:
+                    errs.append("the %s header for realm %r (algorithm %s, qop %s, nc %s) does not verify under RFC 7616 with the credentials stored for that realm" % (
+                        "Proxy-Authorization" if kind == "P" else "Authorization", realm, alg, qop, d.get("nc")))
+                elif d.get("userhash") == "true" and d.get("username", "").encode() != H(base, user + b":" + realm.encode()):
+                    errs.append("userhash=true but the username is not H(user:realm)")
+                else:
+                    errs = []
+                    break
+            if errs:
+                return errs[:1]
             if qop:
                 nc = int(d["nc"], 16)
                 key = (kind, realm, d["nonce"], d.get("cnonce"))
